@@ -330,3 +330,331 @@ Theorem C01_e2e_prefix_writes : forall HO (data : bytes HO) (bs : N) (q : ranges
     (sel q (blen HO data) c = true /\ chunk_bytes HO out c (c + 1) = chunk_bytes HO data c (c + 1)).
 Proof. exact e2e_prefix_writes. Qed.
 Print Assumptions C01_e2e_prefix_writes.
+
+(* ======== Gap audit: polls that continue after an error; every well-formed query (q = [] included) ========
+   Proofs in Proofs/GapPolls.v, GapLenient.v, GapPollsE2E.v, GapWitness.v, GapDrivers.v, GapStatements.v. *)
+From BaoV Require Import Model.IOSched.
+From BaoV Require Import Proofs.GapPolls Proofs.GapLenient Proofs.GapPollsE2E Proofs.GapWitness Proofs.GapDrivers
+                         Proofs.GapStatements Proofs.GapNonvac.
+
+(* dec_polls st0 tr st / rd_polls st0 tr st: st is reached from st0 by ANY sequence of calls of next, whatever
+   they returned, and tr lists what the calls returned, in order *)
+Theorem C01_polls_def : forall HO (st0 : dstate HO) (r0 : rstate HO),
+  dec_polls HO st0 [] st0 /\
+  (forall tr st r st', dec_polls HO st0 tr st -> dec_next HO st = Some (r, st') -> dec_polls HO st0 (tr ++ [r]) st') /\
+  rd_polls HO r0 [] r0 /\
+  (forall tr st r st', rd_polls HO r0 tr st -> rd_next HO st = RMore st' r -> rd_polls HO r0 (tr ++ [r]) st').
+Proof. exact polls_def. Qed.
+Print Assumptions C01_polls_def.
+
+(* they reach exactly the states of dec_reach / rd_reach (C20_reach_def) *)
+Theorem C01_polls_reach : forall HO (st0 st : dstate HO) (r0 r : rstate HO),
+  (dec_reach HO st0 st <-> exists tr, dec_polls HO st0 tr st) /\
+  (rd_reach HO r0 r <-> exists tr, rd_polls HO r0 tr r).
+Proof. exact polls_reach. Qed.
+Print Assumptions C01_polls_reach.
+
+(* THE DECODERS OF A BLOB, POLLED IN ANY WAY, ON ANY STREAM.  Let tr be the results of any sequence of calls of
+   next of either decoder set up with the blob's root hash and geometry.  As long as every earlier call returned
+   Ok or a LEAF hash mismatch, the k-th call
+     - hands out, if it returns Ok, exactly the k-th item of the honest encoding (no foreign item),
+     - does not panic,
+   and if it returns a not-found error then every later call returns an error (no item, no panic).
+   (A leaf hash mismatch leaves both decoders in the state of an accepted leaf.)  Nothing of this survives a
+   PARENT hash mismatch: see the three _refuted theorems below. *)
+Theorem C01_repoll_sound : forall HO, hash_ok HO ->
+  forall (data : bytes HO) (bs : N) (q : ranges),
+  (blen HO data <= 2 ^ 63)%N -> (bs <= 10)%N -> wf_ranges q = true ->
+  forall (stream : bytes HO) (tr : list (res dec_err (item HO))),
+  (exists st, dec_polls HO (dec_new HO (root_hash HO data) (mkTree (blen HO data) bs) stream q) tr st) \/
+  (exists st, rd_polls HO (rd_new HO (root_hash HO data) q (mkTree (blen HO data) bs) stream) tr st) ->
+  forall k : nat,
+    (forall j r, (j < k)%nat -> nth_error tr j = Some r ->
+       (exists it, r = Ok it) \/ (exists c, r = Err (DLeafHashMismatch c))) ->
+    (forall it, nth_error tr k = Some (Ok it) -> nth_error (honest HO data bs q) k = Some it) /\
+    nth_error tr k <> Some Panic /\
+    (forall e, nth_error tr k = Some (Err e) ->
+       ((exists n, e = DParentNotFound n) \/ (exists c, e = DLeafNotFound c)) ->
+       forall j r, (k < j)%nat -> nth_error tr j = Some r -> exists e', r = Err e').
+Proof. exact repoll_sound. Qed.
+Print Assumptions C01_repoll_sound.
+
+(* the same over an arbitrary consistent plan tree, for the plan decoders polled through the whole plan:
+   poll_list step plan stk enc = (results of polling every item of the plan in turn, final stack, unread stream) *)
+Theorem C01_poll_list_def : forall HO step,
+  (forall stk enc, poll_list HO step [] stk enc = ([], stk, enc)) /\
+  (forall c p stk enc r stk1 enc1 rs stk2 enc2, step c stk enc = (r, stk1, enc1) ->
+     poll_list HO step p stk1 enc1 = (rs, stk2, enc2) ->
+     poll_list HO step (c :: p) stk enc = (r :: rs, stk2, enc2)).
+Proof. exact poll_list_def. Qed.
+Print Assumptions C01_poll_list_def.
+
+(* tail_ok plan: every leaf is non-empty and a leaf shorter than a hash pair is followed by no other leaf *)
+Theorem C01_tail_ok_def :
+  (tail_ok [] <-> True) /\
+  (forall n ir lf rt rs p, tail_ok (CParent n ir lf rt rs :: p) <-> tail_ok p) /\
+  (forall s z ir rs p, tail_ok (CLeaf s z ir rs :: p) <->
+     (z <> 0 /\ (z < 64 -> forall s' z' ir' rs', ~ In (CLeaf s' z' ir' rs') p) /\ tail_ok p))%N.
+Proof. exact tail_ok_def. Qed.
+Print Assumptions C01_tail_ok_def.
+
+(* ... which the plan of every geometry and well-formed query satisfies (or the plan has at most one item) *)
+Theorem C01_tail_ok_plan : forall size ml q, (size <= 2 ^ 63)%N -> wf_ranges q = true ->
+  tail_ok (pre_plan size 0 ml q) \/ (length (pre_plan size 0 ml q) <= 1)%nat.
+Proof. exact tail_ok_pre_plan. Qed.
+Print Assumptions C01_tail_ok_plan.
+
+Theorem C01_repoll_sound_tree : forall HO, hash_ok HO ->
+  forall step, step = step_sync HO \/ step = step_fsm HO ->
+  forall (T : ptree HO) (s : bytes HO), consistent HO T -> leaves_ok HO T ->
+  forall rs stk' enc', poll_list HO step (plan_of HO T) [cv_of HO T] s = (rs, stk', enc') ->
+  forall k : nat,
+    (forall j r, (j < k)%nat -> nth_error rs j = Some r ->
+       (exists it, r = Ok it) \/ (exists c, r = Err (DLeafHashMismatch c))) ->
+    (forall it, nth_error rs k = Some (Ok it) -> nth_error (items_of HO T) k = Some it) /\
+    nth_error rs k <> Some Panic /\
+    (tail_ok (plan_of HO T) -> forall e, nth_error rs k = Some (Err e) ->
+       ((exists n, e = DParentNotFound n) \/ (exists c, e = DLeafNotFound c)) ->
+       forall j r, (k < j)%nat -> nth_error rs j = Some r -> exists e', r = Err e').
+Proof. exact repoll_sound_tree. Qed.
+Print Assumptions C01_repoll_sound_tree.
+
+(* F7 (fsm), with a collision-free hash: polled again after a ParentHashMismatch the state machine hands out
+   FOREIGN LEAF DATA as Ok (the children named by the rejected pair were pushed before the comparison) *)
+Theorem C01_fsm_repoll_foreign_leaf_refuted :
+  exists HO, hash_ok HO /\
+  exists (data stream : bytes HO) (bs : N) (q : ranges) tr st (n off : N) (d : bytes HO),
+    (blen HO data <= 2 ^ 63)%N /\ (bs <= 10)%N /\ wf_ranges q = true /\
+    rd_polls HO (rd_new HO (root_hash HO data) q (mkTree (blen HO data) bs) stream) tr st /\
+    nth_error tr 0 = Some (Err (DParentHashMismatch n)) /\
+    nth_error tr 1 = Some (Ok (ILeaf off d)) /\
+    nth_error (honest HO data bs q) 1 <> Some (ILeaf off d) /\
+    d <> take HO (blen HO d) (drop HO off data).
+Proof. exact fsm_repoll_foreign_leaf. Qed.
+Print Assumptions C01_fsm_repoll_foreign_leaf_refuted.
+
+(* F8 (sync): polled again after a ParentHashMismatch the iterator panics (stack.pop().unwrap() on an empty stack) *)
+Theorem C01_sync_repoll_panics_refuted :
+  exists HO, hash_ok HO /\
+  exists (data stream : bytes HO) (bs : N) (q : ranges) tr st (n : N),
+    (blen HO data <= 2 ^ 63)%N /\ (bs <= 10)%N /\ wf_ranges q = true /\
+    dec_polls HO (dec_new HO (root_hash HO data) (mkTree (blen HO data) bs) stream q) tr st /\
+    nth_error tr 0 = Some (Err (DParentHashMismatch n)) /\
+    nth_error tr 1 = Some Panic.
+Proof. exact sync_repoll_panics. Qed.
+Print Assumptions C01_sync_repoll_panics_refuted.
+
+(* NEW (sync): polled again after the ParentHashMismatch of an INNER node the iterator can also hand out a
+   foreign PARENT item as Ok: the honest pair of another node m under the node id n' (the stale stack entry of
+   m's subtree is compared with the next pair of the stream) *)
+Theorem C01_sync_repoll_foreign_parent_refuted :
+  exists HO, hash_ok HO /\
+  exists (data stream : bytes HO) (bs : N) (q : ranges) tr st (n n' m : N) (l r : hash HO),
+    (blen HO data <= 2 ^ 63)%N /\ (bs <= 10)%N /\ wf_ranges q = true /\
+    dec_polls HO (dec_new HO (root_hash HO data) (mkTree (blen HO data) bs) stream q) tr st /\
+    nth_error tr 1 = Some (Err (DParentHashMismatch n)) /\
+    nth_error tr 2 = Some (Ok (IParent n' l r)) /\
+    In (IParent m l r) (honest HO data bs q) /\ m <> n' /\
+    (forall l' r', In (IParent n' l' r') (honest HO data bs q) -> l' <> l).
+Proof. exact sync_repoll_foreign_parent. Qed.
+Print Assumptions C01_sync_repoll_foreign_parent_refuted.
+
+(* polls of the reader-based decoders of Model/IOSched.v *)
+Theorem C01_polls_r_def : forall HO (st0 : dstate_r HO) (r0 : rstate_r HO),
+  dec_polls_r HO st0 [] st0 /\
+  (forall st r st1 tr st', dec_next_r HO st = Some (r, st1) -> dec_polls_r HO st1 tr st' -> dec_polls_r HO st (r :: tr) st') /\
+  rd_polls_r HO r0 [] r0 /\
+  (forall st r st1 tr st', rd_next_r HO st = Some (r, st1) -> rd_polls_r HO st1 tr st' -> rd_polls_r HO st (r :: tr) st').
+Proof. exact polls_r_def. Qed.
+Print Assumptions C01_polls_r_def.
+
+(* polling again after an io error of the transport is not harmless either: on the HONEST stream behind a
+   reader whose first read call fails (kind Other) both decoders then report a spurious leaf hash mismatch
+   and panic on the next call *)
+Theorem C01_repoll_after_io_error_refuted :
+  (exists HO, hash_ok HO /\
+   exists (data : bytes HO) (bs : N) (q : ranges) (rd : reader HO) tr st (c : N),
+     (blen HO data <= 2 ^ 63)%N /\ (bs <= 10)%N /\ wf_ranges q = true /\
+     rd_rest HO rd = flat HO (honest HO data bs q) /\
+     dec_polls_r HO (dec_new_r HO (root_hash HO data) (mkTree (blen HO data) bs) rd q) tr st /\
+     tr = [Err (DIo KOther); Err (DLeafHashMismatch c); Panic]) /\
+  (exists HO, hash_ok HO /\
+   exists (data : bytes HO) (bs : N) (q : ranges) (rd : reader HO) tr st (c : N),
+     (blen HO data <= 2 ^ 63)%N /\ (bs <= 10)%N /\ wf_ranges q = true /\
+     rd_rest HO rd = flat HO (honest HO data bs q) /\
+     rd_polls_r HO (rd_new_r HO (root_hash HO data) q (mkTree (blen HO data) bs) rd) tr st /\
+     tr = [Err (DIo KOther); Err (DLeafHashMismatch c); Panic]).
+Proof. exact repoll_after_io_error. Qed.
+Print Assumptions C01_repoll_after_io_error_refuted.
+
+(* soft r: Ok or a leaf hash mismatch; notfound e: one of the two not-found errors *)
+Theorem C01_soft_notfound_def : forall HO (r : res dec_err (item HO)) (e : dec_err),
+  (soft HO r <-> ((exists it, r = Ok it) \/ (exists c, r = Err (DLeafHashMismatch c)))) /\
+  (notfound e <-> ((exists n, e = DParentNotFound n) \/ (exists c, e = DLeafNotFound c))).
+Proof. exact soft_notfound_def. Qed.
+Print Assumptions C01_soft_notfound_def.
+
+(* the hypotheses of C01_repoll_sound / C01_repoll_sound_tree are satisfiable in non-trivial ways: polls that
+   go on after a leaf hash mismatch and yield the genuine next leaf; a not-found error followed by errors *)
+Theorem C01_repoll_nonvacuous :
+  exists HO, hash_ok HO /\
+  exists (data : bytes HO) (bs : N) (q : ranges),
+    (blen HO data <= 2 ^ 63)%N /\ (bs <= 10)%N /\ wf_ranges q = true /\
+    (exists stream tr st it0 it2 c,
+       dec_polls HO (dec_new HO (root_hash HO data) (mkTree (blen HO data) bs) stream q) tr st /\
+       tr = [Ok it0; Err (DLeafHashMismatch c); Ok it2] /\
+       (forall j r, (j < 2)%nat -> nth_error tr j = Some r -> soft HO r) /\
+       nth_error (honest HO data bs q) 2 = Some it2) /\
+    (exists stream tr st it0 it2 c,
+       rd_polls HO (rd_new HO (root_hash HO data) q (mkTree (blen HO data) bs) stream) tr st /\
+       tr = [Ok it0; Err (DLeafHashMismatch c); Ok it2] /\
+       (forall j r, (j < 2)%nat -> nth_error tr j = Some r -> soft HO r)) /\
+    (exists stream tr st it0 c c',
+       dec_polls HO (dec_new HO (root_hash HO data) (mkTree (blen HO data) bs) stream q) tr st /\
+       tr = [Ok it0; Err (DLeafNotFound c); Err (DLeafNotFound c')] /\ notfound (DLeafNotFound c)) /\
+    (exists stream tr st it0 c c',
+       rd_polls HO (rd_new HO (root_hash HO data) q (mkTree (blen HO data) bs) stream) tr st /\
+       tr = [Ok it0; Err (DLeafNotFound c); Err (DLeafNotFound c')] /\ notfound (DLeafNotFound c)).
+Proof. exact polls_nonvacuous. Qed.
+Print Assumptions C01_repoll_nonvacuous.
+
+Theorem C01_repoll_tree_nonvacuous :
+  exists HO, hash_ok HO /\ exists T : ptree HO,
+    consistent HO T /\ leaves_ok HO T /\ tail_ok (plan_of HO T) /\ length (plan_of HO T) = 3%nat.
+Proof. exact polls_tree_nonvacuous. Qed.
+Print Assumptions C01_repoll_tree_nonvacuous.
+
+(* ---- the end-to-end theorems B without the side condition q <> [] ---- *)
+Theorem C01_e2e_sync_any_query : forall HO, hash_ok HO ->
+  forall (data : bytes HO) (bs : N) (q : ranges),
+  (blen HO data <= 2 ^ 63)%N -> (bs <= 10)%N -> wf_ranges q = true ->
+  forall (stream : bytes HO) ys o st,
+  dec_run HO (dec_new HO (root_hash HO data) (mkTree (blen HO data) bs) stream q) = (ys, o, st) ->
+  is_prefix ys (honest HO data bs q) /\
+  (o = Finished -> ys = honest HO data bs q /\ stream = flat HO (honest HO data bs q) ++ d_enc HO st) /\
+  (forall e, o = Failed e ->
+     ~ is_prefix (flat HO (firstn (length ys + 1) (honest HO data bs q))) stream) /\
+  o <> Panicked /\ o <> OutOfFuel.
+Proof. exact e2e_sync_any. Qed.
+Print Assumptions C01_e2e_sync_any_query.
+
+Theorem C01_e2e_fsm_any_query : forall HO, hash_ok HO ->
+  forall (data : bytes HO) (bs : N) (q : ranges),
+  (blen HO data <= 2 ^ 63)%N -> (bs <= 10)%N -> wf_ranges q = true ->
+  forall (stream : bytes HO) ys o st,
+  rd_run HO (rd_new HO (root_hash HO data) q (mkTree (blen HO data) bs) stream) = (ys, o, st) ->
+  is_prefix ys (honest HO data bs q) /\
+  (o = Finished -> ys = honest HO data bs q /\ stream = flat HO (honest HO data bs q) ++ Fsm.r_enc HO st) /\
+  (forall e, o = Failed e ->
+     ~ is_prefix (flat HO (firstn (length ys + 1) (honest HO data bs q))) stream) /\
+  o <> Panicked /\ o <> OutOfFuel.
+Proof. exact e2e_fsm_any. Qed.
+Print Assumptions C01_e2e_fsm_any_query.
+
+Theorem C01_e2e_decode_ranges_any_query : forall HO, hash_ok HO ->
+  forall (data : bytes HO) (bs : N) (q : ranges),
+  (blen HO data <= 2 ^ 63)%N -> (bs <= 10)%N -> wf_ranges q = true ->
+  forall (stream target : bytes HO) (ob : outboard HO),
+  ob_root ob = root_hash HO data -> ob_tree ob = mkTree (blen HO data) bs ->
+  (exists ys o st',
+    let a := apply_items HO ys target ob in
+    decode_ranges HO stream q target ob = (ranges_result (a_res HO a) o, a_target HO a, a_ob HO a, st') /\
+    is_prefix ys (honest HO data bs q) /\
+    (o = Finished -> ys = honest HO data bs q /\ is_prefix (flat HO (honest HO data bs q)) stream) /\
+    (forall e, o = Failed e -> ~ is_prefix (flat HO (firstn (length ys + 1) (honest HO data bs q))) stream) /\
+    o <> Panicked /\ o <> OutOfFuel) /\
+  (exists ys o st',
+    let a := apply_items HO ys target ob in
+    decode_ranges_fsm HO stream q target ob = (ranges_result (a_res HO a) o, a_target HO a, a_ob HO a, st') /\
+    is_prefix ys (honest HO data bs q) /\
+    (o = Finished -> ys = honest HO data bs q /\ is_prefix (flat HO (honest HO data bs q)) stream) /\
+    (forall e, o = Failed e -> ~ is_prefix (flat HO (firstn (length ys + 1) (honest HO data bs q))) stream) /\
+    o <> Panicked /\ o <> OutOfFuel).
+Proof. exact e2e_decode_ranges_any. Qed.
+Print Assumptions C01_e2e_decode_ranges_any_query.
+
+Theorem C01_e2e_decode_ranges_bytes_any_query : forall HO, hash_ok HO ->
+  forall (data : bytes HO) (bs : N) (q : ranges),
+  (blen HO data <= 2 ^ 63)%N -> (bs <= 10)%N -> wf_ranges q = true ->
+  forall (stream target : bytes HO) (ob : outboard HO),
+  ob_root ob = root_hash HO data -> ob_tree ob = mkTree (blen HO data) bs -> length target = length data ->
+  forall res target' ob',
+  (exists st', decode_ranges HO stream q target ob = (res, target', ob', st')) \/
+  (exists st', decode_ranges_fsm HO stream q target ob = (res, target', ob', st')) ->
+  length target' = length data /\
+  (forall c, (c < nchunks (blen HO data))%N ->
+     chunk_bytes HO target' c (c + 1) = chunk_bytes HO target c (c + 1) \/
+     (sel q (blen HO data) c = true /\ chunk_bytes HO target' c (c + 1) = chunk_bytes HO data c (c + 1))) /\
+  (res = Ok tt -> forall c, (c < nchunks (blen HO data))%N ->
+     chunk_bytes HO target' c (c + 1) =
+     if sel q (blen HO data) c then chunk_bytes HO data c (c + 1) else chunk_bytes HO target c (c + 1)).
+Proof. exact e2e_decode_ranges_bytes_any. Qed.
+Print Assumptions C01_e2e_decode_ranges_bytes_any_query.
+
+(* ---- every byte written is the blob's, for a target of ANY length (proofs in Proofs/GapTarget.v) ----
+   pad HO n t = t cut / zero-extended to exactly n bytes (positioned writes past the end of a Vec zero-extend it) *)
+From BaoV Require Import Proofs.GapTarget.
+
+Theorem C01_pad_def : forall HO n (t : bytes HO),
+  pad HO n t = firstn n (t ++ zeros HO (n - length t)) /\ length (pad HO n t) = n /\
+  (length t = n -> pad HO n t = t) /\
+  forall i, nth_error (pad HO n t) i =
+    if (i <? n)%nat then (if (i <? length t)%nat then nth_error t i else Some (bzero HO)) else None.
+Proof. exact pad_def. Qed.
+Print Assumptions C01_pad_def.
+
+(* C01_e2e_decode_ranges_bytes without the hypothesis length target = length data (and for every well-formed
+   query): whatever the stream and the result, the drivers touch nothing from the blob's length on, never shrink
+   the target, and below the blob's length every chunk of the (padded) result is either the (padded) old chunk or
+   (selected and) the blob's chunk; on Ok exactly the selected chunks are the blob's *)
+Theorem C01_e2e_decode_ranges_bytes_any_target : forall HO, hash_ok HO ->
+  forall (data : bytes HO) (bs : N) (q : ranges),
+  (blen HO data <= 2 ^ 63)%N -> (bs <= 10)%N -> wf_ranges q = true ->
+  forall (stream target : bytes HO) (ob : outboard HO),
+  ob_root ob = root_hash HO data -> ob_tree ob = mkTree (blen HO data) bs ->
+  forall res target' ob',
+  (exists st', decode_ranges HO stream q target ob = (res, target', ob', st')) \/
+  (exists st', decode_ranges_fsm HO stream q target ob = (res, target', ob', st')) ->
+  let n := length data in
+  skipn n target' = skipn n target /\
+  firstn (length target') (pad HO n target') = firstn n target' /\
+  (length target <= length target')%nat /\
+  (forall c, (c < nchunks (blen HO data))%N ->
+     chunk_bytes HO (pad HO n target') c (c + 1) = chunk_bytes HO (pad HO n target) c (c + 1) \/
+     (sel q (blen HO data) c = true /\
+      chunk_bytes HO (pad HO n target') c (c + 1) = chunk_bytes HO data c (c + 1))) /\
+  (res = Ok tt -> forall c, (c < nchunks (blen HO data))%N ->
+     chunk_bytes HO (pad HO n target') c (c + 1) =
+     if sel q (blen HO data) c then chunk_bytes HO data c (c + 1)
+     else chunk_bytes HO (pad HO n target) c (c + 1)).
+Proof. exact e2e_decode_ranges_bytes_any_target. Qed.
+Print Assumptions C01_e2e_decode_ranges_bytes_any_target.
+
+(* ---- every hash pair handed to the outboard is the blob's pair of its node (proofs in Proofs/GapPairs.v) ----
+   true_pair HO data nd (Spec/EncSpec.v) = the chaining values of the two children of node nd in the blob's tree *)
+From BaoV Require Import Proofs.GapPairs.
+
+Theorem C01_honest_pairs_true : forall HO (data : bytes HO) (bs : N) (q : ranges) nd l r,
+  In (IParent nd l r) (honest HO data bs q) -> (l, r) = true_pair HO data nd.
+Proof. exact honest_pairs_true. Qed.
+Print Assumptions C01_honest_pairs_true.
+
+(* both drivers, any stream, any target, any outboard carrying the blob's root and tree, any well-formed query:
+   the returned target and outboard are the old ones with a list ys of items applied (apply_items: leaves written,
+   parents saved, in order) in which every parent carries the true pair of its node and every leaf carries the
+   bytes of a run of chunks of the blob at their offset *)
+Theorem C01_e2e_decode_ranges_pairs : forall HO, hash_ok HO ->
+  forall (data : bytes HO) (bs : N) (q : ranges),
+  (blen HO data <= 2 ^ 63)%N -> (bs <= 10)%N -> wf_ranges q = true ->
+  forall (stream target : bytes HO) (ob : outboard HO),
+  ob_root ob = root_hash HO data -> ob_tree ob = mkTree (blen HO data) bs ->
+  forall res target' ob',
+  (exists st', decode_ranges HO stream q target ob = (res, target', ob', st')) \/
+  (exists st', decode_ranges_fsm HO stream q target ob = (res, target', ob', st')) ->
+  exists ys, let a := apply_items HO ys target ob in
+    target' = a_target HO a /\ ob' = a_ob HO a /\
+    (forall nd l r, In (IParent nd l r) ys -> (l, r) = true_pair HO data nd) /\
+    (forall off d, In (ILeaf off d) ys ->
+       exists s e, (off = s * 1024)%N /\ (s < e)%N /\ (e <= nchunks (blen HO data))%N /\ d = chunk_bytes HO data s e).
+Proof. exact e2e_decode_ranges_pairs. Qed.
+Print Assumptions C01_e2e_decode_ranges_pairs.
